@@ -107,13 +107,45 @@ def rollback_fact(fn: ast.FunctionDef, inner_call: str):
                 # `tuple(m.copy() for m in memos)` with `memos = get_shape_memo()`: a copy of each of the four
                 tuple_of[node.targets[0].id] = ["memo0", "memo1", "memo2", "memo3"]
 
+    # which of the four dictionaries an expression is: `a, b, c, d = get_shape_memo()` (also with `_`), `memos[i]` of a name
+    # holding the whole tuple, or the i-th one of `tuple(m.copy() for m in memos)`
+    position = {f"memo{i}": i for i in range(4)}
+    for node in ast.walk(fn):
+        if isinstance(node, ast.Assign) and len(node.targets) == 1 and isinstance(node.targets[0], ast.Tuple) and len(node.targets[0].elts) == 4 \
+                and (call_name(node.value) == "get_shape_memo" or (isinstance(node.value, ast.Name) and node.value.id in whole)):
+            for i, e in enumerate(node.targets[0].elts):
+                if isinstance(e, ast.Name) and e.id != "_":
+                    if position.get(e.id, i) != i:
+                        position[e.id] = -1        # the same name for two different dictionaries
+                    else:
+                        position[e.id] = i
+    for w in whole:
+        for i in range(4):
+            position[f"{w}[{i}]"] = i
+        position[f"{w}[-1]"], position[f"{w}[-2]"], position[f"{w}[-3]"], position[f"{w}[-4]"] = 3, 2, 1, 0
+
+    def restored_seq(call):
+        """the dictionaries a set_shape_memo call puts back from copies, in argument order (None = not a copy)"""
+        if len(call.args) == 1 and isinstance(call.args[0], ast.Starred) and isinstance(call.args[0].value, ast.Name) and not call.keywords:
+            return list(tuple_of.get(call.args[0].value.id, []))
+        if call.keywords and not call.args:
+            order = ["single_memo", "variadic_memo", "pytree_memo", "arg_memo"]
+            kw = {k.arg: k.value for k in call.keywords}
+            if sorted(kw) == sorted(order) and all(isinstance(kw[k], ast.Name) and kw[k].id in copy_of for k in order):
+                return [copy_of[kw[k].id] for k in order]
+            return []
+        if not call.keywords and all(isinstance(a, ast.Name) and a.id in copy_of for a in call.args):
+            return [copy_of[a.id] for a in call.args]
+        return []
+
     def restored(call):
         """the distinct dictionaries a set_shape_memo call puts back from copies"""
-        if len(call.args) == 1 and isinstance(call.args[0], ast.Starred) and isinstance(call.args[0].value, ast.Name):
-            return set(tuple_of.get(call.args[0].value.id, []))
-        if all(isinstance(a, ast.Name) and a.id in copy_of for a in call.args):
-            return {copy_of[a.id] for a in call.args}
-        return set()
+        return set(restored_seq(call))
+
+    def in_order(call):
+        """each of the four goes back into the slot it was read from (the tables all are dicts: a swap is silent)"""
+        seq = restored_seq(call)
+        return len(seq) == 4 and all(position.get(x, -1) == i for i, x in enumerate(seq))
 
     fact["snapshots"] = max(len(set(copy_of.values())), max((len(set(v)) for v in tuple_of.values()), default=0))
     for node in ast.walk(fn):
@@ -123,7 +155,7 @@ def rollback_fact(fn: ast.FunctionDef, inner_call: str):
                 sets = calls_in(h.body, "set_shape_memo")
                 if sets:
                     fact["catch"] = {"Exception": "exceptionOnly", "BaseException": "baseException"}.get(cls, "unknown")
-                    fact["restores_four"] = all(len(restored(c)) == 4 for c in sets)
+                    fact["restores_four"] = all(len(restored(c)) == 4 and in_order(c) for c in sets)
                     fact["reraises"] = any(isinstance(s, ast.Raise) and s.exc is None for s in h.body)
             break
     # False path: an `if` (outside the handler) one of whose branches puts all four back; the branch returns, or
@@ -134,14 +166,14 @@ def rollback_fact(fn: ast.FunctionDef, inner_call: str):
             in_handler.update(id(n) for n in ast.walk(node))
     # ... or, at the top level of the function after the try, before the final `return`
     for i, st in enumerate(fn.body):
-        if isinstance(st, ast.Expr) and call_name(st.value) == "set_shape_memo" and len(restored(st.value)) == 4 \
+        if isinstance(st, ast.Expr) and call_name(st.value) == "set_shape_memo" and len(restored(st.value)) == 4 and in_order(st.value) \
                 and any(isinstance(p, ast.Try) and calls_in(p.body, inner_call) for p in fn.body[:i]) and any(isinstance(n, ast.Return) for n in fn.body[i + 1:]):
             fact["false_path_restores"] = True
     for node in ast.walk(fn):
         if isinstance(node, ast.If) and id(node) not in in_handler:
             for branch in (node.body, node.orelse):
                 sets = [c for s in branch for c in calls_in([s], "set_shape_memo") if not isinstance(s, (ast.If, ast.Try, ast.For, ast.While, ast.With))]
-                if sets and all(len(restored(c)) == 4 for c in sets):
+                if sets and all(len(restored(c)) == 4 and in_order(c) for c in sets):
                     fact["false_path_restores"] = True
     return fact
 
@@ -344,6 +376,9 @@ def run():
     import translate_loader
 
     facts["translated_loader"] = translate_loader.run()
+    import translate_storage
+
+    facts["translated_storage"] = translate_storage.run()
     return facts
 
 
